@@ -115,7 +115,8 @@ inductive PKind where
 
 /-- which `to_hugr` function the definition uses -/
 inductive Shape where
-  /-- `lambda args, ctx: hugr_ty` -/
+  /-- `lambda args, ctx: hugr_ty` (the definition has no parameters; `check_instantiate` guarantees
+      an empty argument list, the model returns an error otherwise) -/
   | static (h : HTy)
   /-- `_list_to_hugr`: `List(Option(elem) if elem.linear else elem)` -/
   | listOpt (ext : String) (rule : ExtRule)
@@ -162,33 +163,66 @@ def intrinsic (D : List OpaqueDef) (s : Sel) (n : String) : Bool :=
   | some d => !d.never s
   | none => false
 
-/-! ## `Type.copyable` / `Type.droppable` -/
+/-! ## `Type.copyable` / `Type.droppable`
+
+  `flagG D u s ρ t`: `u = true` is Python's rule (`ParametrizedTypeBase.copyable`: intrinsic flag and all
+  type arguments).  `u = false` ignores the *type arguments of struct types* (fields only); it is used
+  only to state precisely what the HUGR bound of the lowered type reflects (`coreCopyable`). -/
 mutual
 /-- `ρ` holds the flag of the argument for each enclosing struct parameter (`true` at const positions) -/
-def flagE (D : List OpaqueDef) (s : Sel) (ρ : List Bool) : Ty → Bool
+def flagG (D : List OpaqueDef) (u : Bool) (s : Sel) (ρ : List Bool) : Ty → Bool
   | .num _ => true
   | .none _ => true
-  | .bvar _ i c d => if h : i < ρ.length then ρ[i] else selFlag s c d
+  | .bvar _ i c d => match ρ[i]? with
+    | some b => b
+    | none => selFlag s c d
   | .evar _ _ c d => selFlag s c d
-  | .tuple ts _ => flagEList D s ρ ts
+  | .tuple ts _ => flagGList D u s ρ ts
   | .func _ _ _ _ => true
-  | .opaque n as => intrinsic D s n && flagEArgs D s ρ as
-  | .struct _ as fs => flagEList D s (flagEnvArgs D s ρ as) fs && flagEArgs D s ρ as
-def flagEList (D : List OpaqueDef) (s : Sel) (ρ : List Bool) : List Ty → Bool
+  | .opaque n as => intrinsic D s n && flagGArgs D u s ρ as
+  | .struct _ as fs => flagGList D u s (flagEnvArgs D u s ρ as) fs && (!u || flagGArgs D u s ρ as)
+def flagGList (D : List OpaqueDef) (u : Bool) (s : Sel) (ρ : List Bool) : List Ty → Bool
   | [] => true
-  | t :: r => flagE D s ρ t && flagEList D s ρ r
-def flagEArgs (D : List OpaqueDef) (s : Sel) (ρ : List Bool) : List Arg → Bool
+  | t :: r => flagG D u s ρ t && flagGList D u s ρ r
+def flagGArgs (D : List OpaqueDef) (u : Bool) (s : Sel) (ρ : List Bool) : List Arg → Bool
   | [] => true
-  | .ty t :: r => flagE D s ρ t && flagEArgs D s ρ r
-  | .const _ :: r => flagEArgs D s ρ r
-def flagEnvArgs (D : List OpaqueDef) (s : Sel) (ρ : List Bool) : List Arg → List Bool
+  | .ty t :: r => flagG D u s ρ t && flagGArgs D u s ρ r
+  | .const _ :: r => flagGArgs D u s ρ r
+def flagEnvArgs (D : List OpaqueDef) (u : Bool) (s : Sel) (ρ : List Bool) : List Arg → List Bool
   | [] => []
-  | .ty t :: r => flagE D s ρ t :: flagEnvArgs D s ρ r
-  | .const _ :: r => true :: flagEnvArgs D s ρ r
+  | .ty t :: r => flagG D u s ρ t :: flagEnvArgs D u s ρ r
+  | .const _ :: r => true :: flagEnvArgs D u s ρ r
 end
 
-def copyable (D : List OpaqueDef) (t : Ty) : Bool := flagE D .copy [] t
-def droppable (D : List OpaqueDef) (t : Ty) : Bool := flagE D .drop [] t
+/-- Python's `Type.copyable` / `Type.droppable` under an environment -/
+abbrev flagE (D : List OpaqueDef) (s : Sel) (ρ : List Bool) (t : Ty) : Bool := flagG D true s ρ t
+
+def copyable (D : List OpaqueDef) (t : Ty) : Bool := flagG D true .copy [] t
+def droppable (D : List OpaqueDef) (t : Ty) : Bool := flagG D true .drop [] t
+/-- copyable / droppable when struct type arguments are not counted (fields only) -/
+def coreCopyable (D : List OpaqueDef) (t : Ty) : Bool := flagG D false .copy [] t
+def coreDroppable (D : List OpaqueDef) (t : Ty) : Bool := flagG D false .drop [] t
+
+/-! "no phantom parameter": at every struct node (also inside definition fields, evaluated under the
+  actual arguments) the type arguments carry the flag whenever all fields do -/
+mutual
+def npE (D : List OpaqueDef) (s : Sel) (ρ : List Bool) : Ty → Bool
+  | .tuple ts _ => npEList D s ρ ts
+  | .opaque _ as => npEArgs D s ρ as
+  | .struct _ as fs =>
+      (!flagGList D true s (flagEnvArgs D true s ρ as) fs || flagGArgs D true s ρ as) &&
+      npEList D s (flagEnvArgs D true s ρ as) fs && npEArgs D s ρ as
+  | _ => true
+def npEList (D : List OpaqueDef) (s : Sel) (ρ : List Bool) : List Ty → Bool
+  | [] => true
+  | t :: r => npE D s ρ t && npEList D s ρ r
+def npEArgs (D : List OpaqueDef) (s : Sel) (ρ : List Bool) : List Arg → Bool
+  | [] => true
+  | .ty t :: r => npE D s ρ t && npEArgs D s ρ r
+  | .const _ :: r => npEArgs D s ρ r
+end
+
+def noPhantom (D : List OpaqueDef) (s : Sel) (t : Ty) : Bool := npE D s [] t
 
 /-! ## `Type.hugr_bound` (Guppy's own computation of the bound) -/
 def joinAll (b : HBound) (bs : List HBound) : HBound := bs.foldl HBound.join b
@@ -255,6 +289,21 @@ def varRow (ρ : List EnvE) (i : Nat) (c : Bool) : Option (List HTy) :=
   | some (.const _) => none
   | none => some [.var (i - ρ.length) (flagB c)]
 
+/-- the single row of a `Tuple` HUGR type -/
+def unpackRow : HTy → Option (List HTy)
+  | .sum [.mk hs] => some hs
+  | _ => none
+
+/-- `[x.to_hugr(ctx) for x in type_to_row(t)]`, given `h = t.to_hugr(ctx)`: a top-level tuple / `None`
+    without the `preserve` flag is unpacked into its elements (the model unpacks the HUGR tuple that was
+    just built; Python maps `to_hugr` over `element_types` — the same list) -/
+def rowOf (ρ : List EnvE) (t : Ty) (h : Option HTy) : Option (List HTy) :=
+  match t with
+  | .none false => h.bind unpackRow
+  | .tuple _ false => h.bind unpackRow
+  | .bvar _ i c _ => varRow ρ i c
+  | _ => h.map (fun x => [x])
+
 mutual
 def toHugrE (D : List OpaqueDef) (ρ : List EnvE) : Ty → Option HTy
   | .num k => some (numT k)
@@ -266,11 +315,7 @@ def toHugrE (D : List OpaqueDef) (ρ : List EnvE) : Ty → Option HTy
       if ps.isEmpty then do
         let is ← funcInsE D ρ ins
         -- `type_to_row(self.output)`
-        let os ← (match o with
-          | .none false => some []
-          | .tuple ts false => toHugrEList D ρ ts
-          | .bvar _ i c _ => varRow ρ i c
-          | o' => do some [← toHugrE D ρ o'])
+        let os ← rowOf ρ o (toHugrE D ρ o)
         let bs ← funcInoutsE D ρ ins
         some (.func is (os ++ bs))
       else none
@@ -279,7 +324,7 @@ def toHugrE (D : List OpaqueDef) (ρ : List EnvE) : Ty → Option HTy
       | none => none
       | some d =>
         match d.shape, as with
-        | .static h, _ => some h
+        | .static h, [] => some h
         | .listOpt e r, [.ty t] => do
             let h ← toHugrE D ρ t
             let lin := !flagE D .copy (flagEnv .copy ρ) t && !flagE D .drop (flagEnv .drop ρ) t
@@ -294,16 +339,8 @@ def toHugrE (D : List OpaqueDef) (ρ : List EnvE) : Ty → Option HTy
         | .underlying, [.ty t, .const _] => toHugrE D ρ t
         | .option, [.ty t] => do some (optionOf (← toHugrE D ρ t))
         | .either, [.ty l, .ty r] => do
-            let ls ← (match l with
-              | .none false => some []
-              | .tuple ts false => toHugrEList D ρ ts
-              | .bvar _ i c _ => varRow ρ i c
-              | l' => do some [← toHugrE D ρ l'])
-            let rs ← (match r with
-              | .none false => some []
-              | .tuple ts false => toHugrEList D ρ ts
-              | .bvar _ i c _ => varRow ρ i c
-              | r' => do some [← toHugrE D ρ r'])
+            let ls ← rowOf ρ l (toHugrE D ρ l)
+            let rs ← rowOf ρ r (toHugrE D ρ r)
             some (.sum [.mk ls, .mk rs])
         | .ext1 e r, [.ty t] => do some (.ext e r [.ty (← toHugrE D ρ t)])
         | _, _ => none
@@ -327,30 +364,34 @@ def envArgs (D : List OpaqueDef) (ρ : List EnvE) : List Arg → List EnvE
   | [] => []
   | .ty t :: r =>
       .ty (flagE D .copy (flagEnv .copy ρ) t) (flagE D .drop (flagEnv .drop ρ) t) (toHugrE D ρ t)
-        (match t with
-          | .none false => some []
-          | .tuple ts false => toHugrEList D ρ ts
-          | .bvar _ i c _ => varRow ρ i c
-          | t' => do some [← toHugrE D ρ t']) :: envArgs D ρ r
+        (rowOf ρ t (toHugrE D ρ t)) :: envArgs D ρ r
   | .const c :: r => .const (constArgE ρ c) :: envArgs D ρ r
 end
 
 /-- `[t.to_hugr(ctx) for t in type_to_row(ty)]` -/
 def toRowE (D : List OpaqueDef) (ρ : List EnvE) (t : Ty) : Option (List HTy) :=
-  match t with
-  | .none false => some []
-  | .tuple ts false => toHugrEList D ρ ts
-  | .bvar _ i c _ => varRow ρ i c
-  | t' => do some [← toHugrE D ρ t']
+  rowOf ρ t (toHugrE D ρ t)
 
 def toHugr (D : List OpaqueDef) (t : Ty) : Option HTy := toHugrE D [] t
 
-/-! every opaque definition mentioned by the type (recursively, definition fields included) is in the table -/
+def PKind.isTy : PKind → Bool
+  | .ty _ _ => true
+  | .const => false
+
+def Arg.isTy : Arg → Bool
+  | .ty _ => true
+  | .const _ => false
+
+/-! every opaque definition mentioned by the type (recursively, definition fields included) is in the
+    table and is applied to arguments of the kinds of its parameters (what `check_instantiate` ensures) -/
 mutual
 def known (D : List OpaqueDef) : Ty → Bool
   | .tuple ts _ => knownList D ts
   | .func ins o _ _ => knownIns D ins && known D o
-  | .opaque n as => (lookup D n).isSome && knownArgs D as
+  | .opaque n as =>
+      (match lookup D n with
+        | some d => as.map Arg.isTy == d.params.map PKind.isTy
+        | none => false) && knownArgs D as
   | .struct _ as fs => knownArgs D as && knownList D fs
   | _ => true
 def knownList (D : List OpaqueDef) : List Ty → Bool
@@ -378,10 +419,6 @@ def ExtRule.isExplicitLinear : ExtRule → Bool
   | .explicit .linear => true
   | _ => false
 
-def PKind.isTy : PKind → Bool
-  | .ty _ _ => true
-  | .const => false
-
 def PKind.mustCopy : PKind → Bool
   | .ty c _ => c
   | .const => false
@@ -396,19 +433,25 @@ def rowOk (aff : List String) (d : OpaqueDef) : Bool :=
   (match d.shape with
     | .static h =>
         d.params.isEmpty && ((typeBound h).isCopyable == !d.neverCopyable) &&
-        ((typeBound h).isCopyable || d.neverDroppable || requiresDrop aff h)
-    | .listOpt _ r => r.isJoin && !d.neverCopyable && !d.neverDroppable && kindsAre d.params [true]
+        ((typeBound h).isCopyable || d.neverDroppable || requiresDrop aff h) &&
+        (!(typeBound h).isCopyable || !requiresDrop aff h)
+    | .listOpt e r =>
+        r.isJoin && !d.neverCopyable && !d.neverDroppable && !aff.contains e && kindsAre d.params [true]
     | .array e r =>
         r.isExplicitLinear && d.neverCopyable && !d.neverDroppable && aff.contains e &&
         kindsAre d.params [true, false]
-    | .staticArray _ r =>
-        r.isJoin && !d.neverCopyable && !d.neverDroppable && kindsAre d.params [true, false] &&
-        (d.params.head?.map PKind.mustCopy == some true)
+    | .staticArray e r =>
+        r.isJoin && !d.neverCopyable && !d.neverDroppable && !aff.contains e &&
+        kindsAre d.params [true, false] && (d.params.head?.map PKind.mustCopy == some true)
     | .underlying => !d.neverCopyable && !d.neverDroppable && kindsAre d.params [true, false]
     | .option => !d.neverCopyable && !d.neverDroppable && kindsAre d.params [true]
     | .either => !d.neverCopyable && !d.neverDroppable && kindsAre d.params [true, true]
     | .ext1 _ r => r.isExplicitLinear && d.neverCopyable && d.neverDroppable && kindsAre d.params [true]
     | .unknown => false)
+
+/-- the HUGR types of `int`/`nat`/`float` are not in `AFFINE_EXTENSION_TYS` -/
+def affOk (aff : List String) : Bool :=
+  !aff.contains "arithmetic.int.types.int" && !aff.contains "arithmetic.float.types.float64"
 
 def tableOk (aff : List String) (D : List OpaqueDef) : Bool := D.all (rowOk aff)
 
